@@ -43,6 +43,25 @@ def batchAddD (a : DynArray) : List Row → Except Err DynArray
     | .error e => .error e
     | .ok a' => batchAddD a' rs
 
+/-- `add_multiple_1m_candles` on the array (`rs` = the rows of `candles`):
+    `int(len(candles) - (candles[-1][0] - arr[-1][0]) / 60000)` is taken with `floor`, which is what `int()` gives for
+    the whole-minute differences the simulators produce; `arr[-override:] = candles` is a slice assignment without stop -/
+def addMultipleD (a : DynArray) (rs : List Row) : Except Err DynArray :=
+  match rs.head?, rs.getLast? with
+  | some r0, some rl =>
+    if a.len = 0 then a.appendMultiple rs
+    else match a.getItem (-1) with
+      | .error e => .error e
+      | .ok last =>
+        if ts r0 > ts last then a.appendMultiple rs
+        else match a.getItem (-(rs.length : Int)) with
+          | .error e => .error e
+          | .ok x =>
+            if ts r0 ≥ ts x ∧ ts rl ≥ ts last then
+              a.setSlice (some (-((rs.length : Int) - ((ts rl - ts last) / 60000).floor))) none rs
+            else .error .IndexError
+  | _, _ => .error .IndexError
+
 /-- a candle as the row the store holds -/
 def enc (c : Candle) : Row := [(c.ts : Rat), c.o, c.c, c.h, c.l, c.v]
 
